@@ -33,6 +33,14 @@ def run(rep, tier, prop="C01", extra_kinds=()):
     # the reader side of the round trip: the serialised text (or the caller's script) reaches the lexer unmodified
     from . import c10
     common.guarded(rep, "C10.2", c10.c10_2, rep, ix)
+    # ... and the reader evaluates the written numbers and operators to their arithmetic value (operator table of the evaluator, shared with C03)
+    from . import c03
+    from ..py.ctxtypes import ContextClasses
+    cc_ = ContextClasses(M.src["py_parser"])
+    br_ = common.guarded(rep, "C03.2", c03.c03_2, rep, ix, M)
+    if br_:
+        common.guarded(rep, "C03.3", c03.c03_3, rep, ix, M, cc_, br_)
+    common.guarded(rep, "C03.5", c03.c03_5, rep, ix, M)
     rep.rule(P + ".4", "script structure: metadata keywords, option and argument lists, statement lines and mode lists have the shapes the grammar prescribes; elements are separated by ', '", floor=8)
     common.guarded(rep, P + ".4", tser.structure, rep, P + ".4", ix, M)
     rep.rule(P + ".5", "array values are hoisted into declarations whose header and rows are in the language of arrayvar for the array's own dtype, one fresh declaration per array value, inserted before the statements", floor=10)
